@@ -24,7 +24,7 @@ TraceLog == ndJsonDeserialize("trace.ndjson")
 VARIABLE l
 tvars == <<vars, l>>
 
-impl == <<lvars, kvars, bvars, rvars, ovars, hist>>
+impl == <<ok, lvars, kvars, bvars, rvars, ovars, hist>>
 
 TraceInit == Init /\ l = 1
 
